@@ -6,8 +6,29 @@ import (
 	"github.com/dgryski/go-spooky"
 )
 
+// keyHash computes the checksum of a key exactly as the reader does
+// (spooky.Hash32 over the whole key). The streaming spooky.Spooky must not be
+// used here: for inputs of 96..191 bytes it disagrees with spooky.Hash32, so
+// records written with it cannot be found.
+type keyHash struct {
+	key []byte
+}
+
+func (k *keyHash) Write(p []byte) (int, error) {
+	k.key = append(k.key, p...)
+	return len(p), nil
+}
+
+func (k *keyHash) Reset()         { k.key = k.key[:0] }
+func (k *keyHash) Sum32() uint32  { return spooky.Hash32(k.key) }
+func (k *keyHash) Size() int      { return 4 }
+func (k *keyHash) BlockSize() int { return 1 }
+func (k *keyHash) Sum(b []byte) []byte {
+	h := k.Sum32()
+	return append(b, byte(h), byte(h>>8), byte(h>>16), byte(h>>24))
+}
+
 // New returns a new hash computing the cdb checksum.
 func cdbHash() hash.Hash32 {
-	d := spooky.New(0, 0)
-	return d
+	return &keyHash{}
 }
